@@ -92,8 +92,30 @@ fn extension(inst: &mut Instance, tag: u64) -> Vec<Value> {
     out.into_iter().map(|v| crate::observe::canon(&v)).collect()
 }
 
+/// Runs in a child process: replay the history in `dir` with the failpoint armed in abort mode, so that
+/// the process really dies (SIGABRT) in front of the chosen write.
+pub fn child_main(args: &[String]) {
+    let ops: Vec<Op> = serde_json::from_str(&std::fs::read_to_string(&args[0]).expect("case file")).expect("ops");
+    let site: u64 = args[1].parse().expect("site");
+    let dir = std::path::PathBuf::from(&args[2]);
+    std::fs::create_dir_all(&dir).expect("dir");
+    crate::driver::install_panic_hook();
+    v::failpoint_reset(site, true, false);
+    let mut r = Runner::with_instance(Instance::at(&dir).expect("open"));
+    for (i, op) in ops.iter().enumerate() {
+        r.apply(i, op);
+    }
+    // not reached when the site is hit
+    std::process::exit(3);
+}
+
 /// crash the history at one write site and check recovery
-fn crash_at(ops: &[Op], p: &Point, idx: u64) -> CheckResult {
+fn crash_at(ops: &[Op], p: &Point, idx: u64, external: bool) -> CheckResult {
+    let res = crash_at_inner(ops, p, idx, external);
+    res
+}
+
+fn crash_at_inner(ops: &[Op], p: &Point, idx: u64, external: bool) -> CheckResult {
     let mut info = CaseInfo::default();
     v::failpoint_reset(p.site, false, false);
     let mut r = Runner::new("c04c");
@@ -142,7 +164,40 @@ fn crash_at(ops: &[Op], p: &Point, idx: u64) -> CheckResult {
     }
     // the process is dead: nothing else is written; restart
     let uni = r.uni.clone();
-    if let Err(e) = r.inst.reopen() {
+    struct DirGuard(std::path::PathBuf);
+    impl Drop for DirGuard {
+        fn drop(&mut self) {
+            let _ = std::fs::remove_dir_all(&self.0);
+        }
+    }
+    let mut _external_dir: Option<DirGuard> = None;
+    if external {
+        // the same crash in a real child process that abort()s at the site; recovery is then checked on
+        // the directory that process left behind
+        let base = crate::driver::fresh_dir("c04x");
+        let casefile = base.join("ops.json");
+        std::fs::write(&casefile, serde_json::to_string(ops).unwrap()).expect("write case");
+        let dir = base.join("db");
+        let st = std::process::Command::new(std::env::current_exe().unwrap())
+            .args(["child-crash", &casefile.to_string_lossy(), &p.site.to_string(), &dir.to_string_lossy()])
+            .stdout(std::process::Stdio::null())
+            .stderr(std::process::Stdio::null())
+            .status();
+        let aborted = st.as_ref().map(|s| s.code().is_none()).unwrap_or(false);
+        if !aborted {
+            let _ = std::fs::remove_dir_all(&base);
+            fail!("harness/child-did-not-die-at-the-site", "site {} of op {}: {:?}", p.site, p.op_idx, st);
+        }
+        match Instance::at(&dir) {
+            Ok(i) => r.inst = i,
+            Err(e) => {
+                let _ = std::fs::remove_dir_all(&base);
+                fail!("C04/database-does-not-reopen-after-crash", "real process death at site {} ({}) of op {}: {}", p.site, p.name, p.op_idx, e);
+            }
+        }
+        _external_dir = Some(DirGuard(base));
+        info.class("real-process-death-in-a-child");
+    } else if let Err(e) = r.inst.reopen() {
         fail!("C04/database-does-not-reopen-after-crash", "crash at site {} ({}) of op {}: {}", p.site, p.name, p.op_idx, e);
     }
     let what = format!("crash before write #{} ({}) during op {} {:?}", p.site, p.name, p.op_idx, ops[p.op_idx]);
@@ -229,6 +284,7 @@ impl Property for C04 {
         }
         let hs_ref = &hs;
         let plans_ref = &plans;
+        let thorough = ctx.tier == Tier::Thorough || std::env::var("VERIF_C04_CHILD").is_ok();
         let offs = offsets.clone();
         explore_indexed(
             ctx,
@@ -239,7 +295,7 @@ impl Property for C04 {
             move |i| {
                 let h = offs.iter().rposition(|o| *o <= i).unwrap();
                 let p = &plans_ref[h].points[(i - offs[h]) as usize];
-                (crash_at(&hs_ref[h], p, i), json!({"history": hs_ref[h], "op_idx": p.op_idx, "site": p.site, "site_name": p.name, "kind": p.kind, "first_or_last": p.first_or_last, "index": i}))
+                (crash_at(&hs_ref[h], p, i, thorough && i % 20 == 7), json!({"history": hs_ref[h], "op_idx": p.op_idx, "site": p.site, "site_name": p.name, "kind": p.kind, "first_or_last": p.first_or_last, "index": i}))
             },
         )
     }
@@ -255,6 +311,6 @@ impl Property for C04 {
             kind: d["kind"].as_u64().unwrap_or(0) as u8,
             first_or_last: d["first_or_last"].as_bool().unwrap_or(false),
         };
-        crash_at(&ops, &p, d["index"].as_u64().unwrap_or(0))
+        crash_at(&ops, &p, d["index"].as_u64().unwrap_or(0), false)
     }
 }
